@@ -148,7 +148,7 @@ def replay(case):
     ref = ref_weight_matrix(sizes, interp, X, clip) @ k
     err = np.abs(o - ref)
     tol = TOL * 5 * max(1.0, np.abs(k).max())
-    if err.max() > tol:
+    if not (err.max() <= tol):
       r = int(err.argmax())
       return "units=1 kernel %s at %s: impl %.6g ref %.6g" % (k.tolist(), X[r].tolist(), o[r], ref[r])
     return None
@@ -175,7 +175,7 @@ def _perunit(sizes, interp, clip, form, X):
   r1 = ref_weight_matrix(sizes, interp, X1, clip) @ k1
   tol = TOL * 5 * max(1.0, n, k1.max())
   e = np.maximum(np.abs(o[:, 0] - r0), np.abs(o[:, 1] - r1))
-  if e.max() > tol:
+  if not (e.max() <= tol):
     r = int(e.argmax())
     return ("units=2 per-unit inputs: row %d points %s / %s -> impl %s, ref %s" %
             (r, X[r].tolist(), X1[r].tolist(), o[r].tolist(), [r0[r], r1[r]]))
@@ -200,7 +200,7 @@ def _agree(sizes, form):
   Wh = impl_weight_matrix(sizes, "hypercube", True, form, X)
   Ws = impl_weight_matrix(sizes, "simplex", True, form, X)
   e = np.abs(Wh - Ws).max(axis=1)
-  if e.max() > TOL * 5:
+  if not (e.max() <= TOL * 5):
     r = int(e.argmax())
     return "schemes disagree at %s (vertex/axis-parallel edge) by %.4g" % (X[r].tolist(), e[r])
   return None
@@ -329,7 +329,7 @@ def work(ctx, item):
       err = np.abs(o - ref)
       ctx.add(evaluations=X.shape[0], nontrivial=int((ref != 0).sum()), traces=X.shape[0])
       tol = TOL * 5 * max(1.0, np.abs(k).max())
-      if err.max() > tol:
+      if not (err.max() <= tol):
         r = int(err.argmax())
         s = dict(sig); s["violated"] = "reference"
         case = dict(item); case["points"] = X[max(0, r - 1):r + 2].tolist(); case["kernel"] = k.tolist()
